@@ -86,6 +86,13 @@ func genC09Component(rng *rand.Rand) c09Case {
 			}
 		}
 		c.Body = "[" + strings.Join(es, ",") + "]"
+		// a right answer followed by something else is not JSON any more; followed by white space it still is
+		switch rng.Intn(12) {
+		case 0:
+			c.Body += []string{" x", "]", ` [{"errors":[{"message":"late"}]}]`, "<html>502 Bad Gateway</html>", " null", ",", "\x00"}[rng.Intn(7)]
+		case 1:
+			c.Body += []string{" ", "\n", "\r\n\t "}[rng.Intn(3)]
+		}
 	}
 	return c
 }
